@@ -17,6 +17,17 @@ fn main() {
     if args.len() < 2 {
         usage();
     }
+    if args[1].starts_with("helper-") {
+        // a helper whose parent is gone (a worker killed by the watchdog) has nobody waiting for
+        // it: leave instead of burning a core on a compile that may never end
+        let parent = unsafe { libc::getppid() };
+        std::thread::spawn(move || loop {
+            std::thread::sleep(std::time::Duration::from_millis(500));
+            if unsafe { libc::getppid() } != parent {
+                std::process::exit(3);
+            }
+        });
+    }
     let root = PathBuf::from(arg_after(&args, "--root").unwrap_or_else(|| {
         std::env::var("VERIF_ROOT").unwrap_or_else(|_| "/verif".to_string())
     }));
